@@ -128,6 +128,10 @@ func scenStateMsg(e *Env, args []string, r *rand.Rand) {
 	dir, state, stim := args[0], args[1], args[2]
 	m := argMap(args)
 	hold := uint16(atoi(m["hold"], 90))
+	if m["cap6"] == "1" {
+		// the remote announces the Extended Message capability (RFC 8654), which corebgp does not: the 4096-octet bound stays
+		e.extraCaps = []wire.Cap{{Code: 6}}
+	}
 	ihold := 5 * time.Second
 	if m["second"] == "1" {
 		ihold = 30 * time.Millisecond
